@@ -211,7 +211,7 @@ pub fn run(ctx: &Ctx, replay: Option<&J>) -> CheckResult {
         }
         return CheckResult { evidence: ev, rule, assumptions, violations: vs };
     }
-    let reps = ctx.n(100, 1500);
+    let reps = ctx.n(100, 6000);
     let mut jobs: Vec<(u16, bool)> = LIST_MSGS.iter().map(|n| (*n, false)).collect();
     jobs.extend(STRING_MSGS.iter().map(|n| (*n, true)));
     let parts: Vec<(Evidence, Vec<Violation>)> = jobs
